@@ -227,6 +227,17 @@ func c17Case(tier string, seed int64, idx int, scratch string) rt.CaseResult {
 	}
 	nroots := 1 + idx%3
 	eo := dbx.Options{Mode: dbx.Inline, Dir: filepath.Join(scratch, "db"), Roots: nroots, MaxDirCount: limit, MaxDirExplicit: true}
+	if idx%2 == 1 {
+		// roots configured with non-canonical spellings (trailing slash, doubled slash, ./ segment)
+		spell := []func(string) string{
+			func(p string) string { return p + "/" },
+			func(p string) string { return filepath.Dir(p) + "//" + filepath.Base(p) },
+			func(p string) string { return filepath.Dir(p) + "/./" + filepath.Base(p) },
+		}
+		for i := 0; i < nroots; i++ {
+			eo.RootPaths = append(eo.RootPaths, spell[(idx/2+i)%len(spell)](filepath.Join(eo.Dir, fmt.Sprintf("root%d", i))))
+		}
+	}
 	env, err := dbx.Open(eo)
 	if err != nil {
 		c.Violate("open-failed", err.Error(), nil)
@@ -256,8 +267,13 @@ func c17Case(tier string, seed int64, idx int, scratch string) rt.CaseResult {
 	scale := tierN(tier, 1, 3)
 	add(120 * nroots * scale)
 	add(140 * scale)
+	if idx%4 >= 2 {
+		// reopen while several directories of a root are completely full, then keep writing
+		steps = append(steps, seqrun.Step{Op: "reopen", Actor: -1})
+		add(25 * scale)
+	}
 	wave(90 * scale)
-	add(80 * scale)
+	add(150 * scale)
 	steps = append(steps, seqrun.Step{Op: "reopen", Actor: -1})
 	add(60 * scale)
 	wave(150 * scale)
@@ -344,13 +360,19 @@ func c17Case(tier string, seed int64, idx int, scratch string) rt.CaseResult {
 				return c
 			}
 			cset := map[string]bool{}
+			freeOf := map[string]uint64{}
 			for _, d := range cands {
 				cset[d.Path()] = true
+				freeOf[d.Path()] = d.Free
 			}
 			for d, ents := range dirs {
 				if fullOnce[d] && len(ents) < eff && len(ents) > 0 {
 					if !cset[d] {
 						c.Violate("regained-directory-not-offered", fmt.Sprintf("after the delete wave at step %d directory %s has %d of %d entries but is not among the directories offered for writing %v", i, d, len(ents), eff, keysOfSet(cset)), replay)
+						return c
+					}
+					if freeOf[d] == 0 {
+						c.Violate("regained-directory-offered-without-free-space", fmt.Sprintf("after the delete wave at step %d directory %s (%d of %d entries) is offered for writing with 0 bytes of free space, so no write can ever choose it", i, d, len(ents), eff), replay)
 						return c
 					}
 					c.AddDistinct(cfgName + "/re-activation")
